@@ -342,6 +342,7 @@ def replay_file(path, repo, root, scratch):
 
 
 def cmd_replay(a, root):
+    a.path = os.path.abspath(a.path)       # worlds run with another working directory
     repo = os.environ.get("CG_REPO", "/repo")
     scratch = tempfile.mkdtemp(prefix="cgsim_replay_")
     try:
